@@ -94,5 +94,7 @@ InvCheckOutcome     == done => CheckOutcome(c, out)
 NoDev   == {}
 DevBare == {"BareFlagKeepsDashes"}
 
-Emit == done \/ PrintT("CASE|" \o ToJson(c))
+\* emission of the universe to the harness: initial states only
+EmitSpec == Init /\ [][UNCHANGED vars]_vars
+Emit == PrintT("CASE|" \o ToJson(c))
 =============================================================================
